@@ -86,8 +86,15 @@ class BuckGophermapHandler(BaseHandler):
                         # If we're using links on THIS server, try to fill
                         # it in for gopher+.
                         # The selector comes from the file's text: look at the
-                        # filesystem only for one a client could request too.
-                        if isselectorsecure(selector) and self.vfs.exists(selector):
+                        # filesystem only for one a client could request too
+                        # (the filesystem path is root + selector, so a
+                        # "URL:..." selector without a host would name a
+                        # sibling of the root).
+                        if (
+                            selector[:1] == "/"
+                            and isselectorsecure(selector)
+                            and self.vfs.exists(selector)
+                        ):
                             try:
                                 entry.populatefromvfs(self.vfs, selector)
                             except OSError:
